@@ -197,17 +197,16 @@ ASSUMPTIONS = ["customExtensionValueParser is null (HttpStateData/ConnStateData 
                "grammar therefore accepts any trailer lines and LF-only line ends there",
                "relaxed_header_parser=on widens BWS to SP/HTAB/VT/FF/CR (Parser::WhitespaceCharacters); the oracle's grammar follows that documented tolerance"]
 MANIFEST = {
-    "text": "full for grammar-valid and truncated encodings, partial for segmentation independence on arbitrary input: Lean theorems over a "
+    "text": "full: Lean theorems over a "
             "branch-by-branch model of TeChunkedParser / Tokenizer::int64 / tokenOrQuotedString / headersEnd and of the caller's feeding loop "
             "show, for every body, every encoding in the RFC 9112 grammar (any chunk sizes, hex case, leading zeros, BWS, token and "
             "quoted-string extensions, trailers), every segmentation (with pipelined octets after the message) and every sequence of "
             "positive payload capacities, that the decoder ends done with exactly the body and exactly the encoding consumed "
             "(decode_exact); that a proper prefix only ever asks for more data (truncated_needs_more); that 0x/0X sizes, non-hex sizes, "
             "sizes >= 2^63 and data without CRLF are rejected after any number of chunks in every segmentation (reject_*); and that for "
-            "EVERY input all segmentations and capacities agree with the unsegmented run unless that run fails with 'cannot skip CRLF "
-            "after [chunk-ext]' (segmentation_independence_partial). The exclusion is a real defect (known finding "
-            "C24-bws-before-crlf-split, counterexample proved by decide): SP/HTAB between a chunk-ext value and CRLF is accepted only "
-            "when a read ends there. The real parser runs under ASan/UBSan against the model (per-call trace) and against a grammar-based "
+            "EVERY input, well-formed or not, all segmentations and capacities end with the verdict and output of the unsegmented run "
+            "(segmentation_independence; true of the tree since /repo db563bd, which fixed finding C24-bws-before-crlf-split found by this "
+            "check — the pre-fix variant is kept only as prefix_variant_counterexample). The real parser runs under ASan/UBSan against the model (per-call trace) and against a grammar-based "
             "reference decoder in both relaxed_header_parser settings.",
     "note": "trusted: Lean kernel, behavioural octet-class/digit/flag dump, C++ harness, python reference recogniser; modelled not verified: "
             "SBuf/MemBuf internals; not modelled: the extracted trailer block (cleanMimePrefix/unfoldMime), the ICAP custom extension "
@@ -651,32 +650,6 @@ def oracle(line, impl):
         if not ref[1].startswith(out):
             return "output before the rejection is not a prefix of the well-formed part's body"
     return None
-
-
-def classify(line, impl, why):
-    """C24-bws-before-crlf-split: BWS between a chunk-ext *value* and CRLF, accepted because a read boundary falls
-    between the end of the value and the CR. The acceptance shows either as a missing rejection or (when something later
-    in the input is rejected anyway) as output beyond the well-formed part."""
-    if not why or not (why.startswith("malformed framing (bws-before-crlf-after-value") or
-                       why.startswith("output before the rejection is not a prefix")):
-        return None
-    f = line.split(" ")
-    enc, relaxed = unhx(f[2]), f[1] == "1"
-    ref = ref_decode(enc, relaxed)
-    if ref[0] != "invalid" or ref[3] != "bws-before-crlf-after-value":
-        return None
-    p = ref[2]                      # offset of the CR
-    c = p
-    while c > 0 and enc[c - 1] in WSP:
-        c -= 1
-    if c == p:
-        return None                 # (relaxed-only BWS octets are a different matter)
-    # the read must end after the value and before the CR; with relaxed_header_parser CR itself is BWS, so the
-    # read may also end right after the CR
-    hi = p + 1 if relaxed else p
-    if not any(c <= b <= hi for b in split_points(line)):
-        return None
-    return "C24-bws-before-crlf-split"
 
 
 def nontrivial(line, impl, model):
